@@ -147,11 +147,50 @@ pub open spec fn hooks_sender(prefix: Seq<char>, channel: Seq<char>, sender: Seq
 pub open spec fn hooks_account(c: Config, native: Addr) -> Option<Seq<char>> {
     hooks_sender(c.protocol_chain_config.account_address_prefix@, c.protocol_chain_config.ibc_channel_id@, native.0@)
 }
+#[verifier::opaque]
 pub open spec fn first_coin(funds: Seq<Coin>, denom: Seq<char>) -> Option<Coin> {
     if exists|i: int| 0 <= i < funds.len() && funds[i].denom@ == denom {
         let i = choose|i: int| 0 <= i < funds.len() && funds[i].denom@ == denom
             && forall|j: int| 0 <= j < i ==> funds[j].denom@ != denom;
         Some(funds[i])
     } else { None }
+}
+pub open spec fn is_first_at(funds: Seq<Coin>, denom: Seq<char>, i: int) -> bool {
+    0 <= i < funds.len() && funds[i].denom@ == denom && forall|j: int| 0 <= j < i ==> funds[j].denom@ != denom
+}
+pub proof fn lemma_least_index(funds: Seq<Coin>, denom: Seq<char>, k: int)
+    requires 0 <= k < funds.len(), funds[k].denom@ == denom,
+    ensures exists|i: int| is_first_at(funds, denom, i),
+    decreases k,
+{
+    if forall|j: int| 0 <= j < k ==> funds[j].denom@ != denom {
+        assert(is_first_at(funds, denom, k));
+    } else {
+        let j = choose|j: int| 0 <= j < k && funds[j].denom@ == denom;
+        lemma_least_index(funds, denom, j);
+    }
+}
+/// characterisation of `first_coin` (the only place its `choose` is unfolded)
+pub proof fn lemma_first_coin(funds: Seq<Coin>, denom: Seq<char>)
+    ensures
+        first_coin(funds, denom) is Some ==> exists|i: int| is_first_at(funds, denom, i) && first_coin(funds, denom) == Some(funds[i]),
+        first_coin(funds, denom) is None ==> forall|i: int| 0 <= i < funds.len() ==> (#[trigger] funds[i]).denom@ != denom,
+        forall|i: int| is_first_at(funds, denom, i) ==> first_coin(funds, denom) == Some(funds[i]),
+{
+    reveal(first_coin);
+    if exists|i: int| 0 <= i < funds.len() && funds[i].denom@ == denom {
+        let k = choose|i: int| 0 <= i < funds.len() && funds[i].denom@ == denom;
+        lemma_least_index(funds, denom, k);
+        let i0 = choose|i: int| 0 <= i < funds.len() && funds[i].denom@ == denom
+            && forall|j: int| 0 <= j < i ==> funds[j].denom@ != denom;
+        let w = choose|i: int| is_first_at(funds, denom, i);
+        assert(is_first_at(funds, denom, w));
+        assert(is_first_at(funds, denom, i0));
+        assert forall|i: int| is_first_at(funds, denom, i) implies first_coin(funds, denom) == Some(funds[i]) by {
+            // two least indices coincide
+            if i < i0 { assert(funds[i].denom@ != denom); }
+            if i0 < i { assert(funds[i0].denom@ != denom); }
+        }
+    }
 }
 } // verus!
